@@ -52,6 +52,7 @@ int main(int argc, char** argv) {
 	registerData(cases);
 	registerOpt(cases);
 	registerExtra(cases);
+	registerMoo(cases);
 
 	if (argc != 2 && argc != 3) {
 		std::cerr << "usage: c18_roundtrip --list | <casefile>\n";
